@@ -2,7 +2,9 @@
    Statements only; each is closed by a lemma of Proofs/Wildcard.v.
    [route_list l] is the list of (address, length) prefixes Route.current returns for the route dump l
    (code as repaired by a252649); [route_Apply true ...] are the options Route.Apply appends. *)
-From CR Require Import Model.Wildcard Proofs.WildcardSort Proofs.Wildcard.
+From CR Require Import Model.Wildcard.
+From CR Require Import Proofs.WildcardSort.
+From CR Require Import Proofs.Wildcard.
 From Coq Require Import Permutation Sorted Lia.
 Local Open Scope N_scope.
 
